@@ -34,6 +34,31 @@ def _key(pl):
     return (pl["l"], tuple(out))
 
 
+def _plain(v):
+    return v is not UNK
+
+
+def _mkset(vals):
+    """The abstract value 'one of these' (at most six alternatives; anything unknown makes the whole unknown)."""
+    mem = []
+    for v in vals:
+        if v is UNK:
+            return UNK
+        for m in (v[1] if v[0] == "set" else [v]):
+            if m not in mem:
+                mem.append(m)
+    if not mem:
+        return UNK
+    if len(mem) == 1:
+        return mem[0]
+    if len(mem) > 6:
+        return UNK
+    try:
+        return ("set", frozenset(mem))
+    except TypeError:
+        return UNK
+
+
 class Spec:
     def __init__(self, body, root_bb=None, variant=None, adt=None, run=True):
         self.body = body
@@ -89,13 +114,16 @@ class Spec:
         for i, p in enumerate(rest):
             if val is UNK:
                 return UNK
+            if val[0] == "set":
+                outs = [self._project(env, m, rest[i:], depth + 1) for m in val[1]]
+                return _mkset(outs)
             if p == "deref":
                 if val[0] == "ref":
                     return self._project(env, self._read(env, val[1]), rest[i + 1:], depth + 1)
                 return UNK
             if p[0] == "f":
                 if val[0] == "bundle":
-                    val = val[1].get(p[1], UNK) if isinstance(val[1], dict) else UNK
+                    val = dict(val[1]).get(p[1], UNK)
                     continue
                 if val[0] == "var":
                     val = dict(val[3]).get(p[1], UNK) if len(val) > 3 else UNK
@@ -186,18 +214,22 @@ class Spec:
                 d = self._variant_discr(v[2], v[1])
                 if d is not None:
                     return ("const", d)
+            if v is not UNK and v[0] == "set" and all(m[0] == "var" for m in v[1]):
+                ds = [self._variant_discr(m[2], m[1]) for m in v[1]]
+                if all(d is not None for d in ds):
+                    return _mkset([("const", d) for d in ds])
             return UNK
         if k == "agg":
             if rv.get("what") == "adt":
                 a = self.body.facts.adt(rv.get("adt")) if self.body.facts else None
                 from mir import KNOWN_ENUMS
                 if (a is not None and a["kind"] == "enum") or rv.get("adt") in KNOWN_ENUMS:
-                    return ("var", rv.get("variant"), rv.get("adt"), tuple(sorted((i, self._op(env, o)) for i, o in enumerate(rv["ops"]) if self._op(env, o) is not UNK)))
+                    return ("var", rv.get("variant"), rv.get("adt"), tuple(sorted((i, self._op(env, o)) for i, o in enumerate(rv["ops"]) if _plain(self._op(env, o)))))
                 if a is not None and a["kind"] == "struct":
-                    return ("bundle", {i: self._op(env, o) for i, o in enumerate(rv["ops"])})
+                    return ("bundle", tuple(sorted((i, self._op(env, o)) for i, o in enumerate(rv["ops"]) if _plain(self._op(env, o)))))
                 return UNK
             if rv.get("what") == "tuple":
-                return ("bundle", {i: self._op(env, o) for i, o in enumerate(rv["ops"])})
+                return ("bundle", tuple(sorted((i, self._op(env, o)) for i, o in enumerate(rv["ops"]) if _plain(self._op(env, o)))))
             return UNK
         if k == "bin":
             a, b = self._op(env, rv["a"]), self._op(env, rv["b"])
@@ -245,21 +277,30 @@ class Spec:
             chosen = None
             if bb == self.root and self.variant is not None:
                 d = self._variant_discr(self.adt, self.variant)
-                chosen = d
+                chosen = [d]
             elif val is not UNK and val[0] == "const":
-                chosen = int(val[1]) if isinstance(val[1], bool) else val[1]
+                chosen = [int(val[1]) if isinstance(val[1], bool) else val[1]]
+            elif val is not UNK and val[0] == "set" and all(m[0] == "const" for m in val[1]):
+                chosen = [int(m[1]) if isinstance(m[1], bool) else m[1] for m in val[1]]
             elif si and si.get("kind") == "discr":
                 pv = self._read(env, _key(si["place"]))
                 if pv is not UNK and pv[0] == "var":
-                    chosen = self._variant_discr(pv[2], pv[1])
+                    d = self._variant_discr(pv[2], pv[1])
+                    chosen = [d] if d is not None else None
+                elif pv is not UNK and pv[0] == "set" and all(m[0] == "var" for m in pv[1]):
+                    ds = [self._variant_discr(m[2], m[1]) for m in pv[1]]
+                    chosen = ds if all(d is not None for d in ds) else None
             if chosen is not None:
-                tgt = None
-                for v, s_ in t["targets"]:
-                    if v == chosen:
-                        tgt = s_
-                if tgt is None:
-                    tgt = t["otherwise"]
-                succs = [tgt] if tgt is not None else []
+                succs = []
+                for c_ in chosen:
+                    tgt = None
+                    for v, s_ in t["targets"]:
+                        if v == c_:
+                            tgt = s_
+                    if tgt is None:
+                        tgt = t["otherwise"]
+                    if tgt is not None and tgt not in succs:
+                        succs.append(tgt)
             else:
                 succs = list(dict.fromkeys([s_ for _, s_ in t["targets"]] + ([t["otherwise"]] if t["otherwise"] is not None else [])))
             for s_ in succs:
@@ -287,6 +328,23 @@ class Spec:
                         cur = self._read(e2, key)
                         if cur is UNK:
                             e2[key] = ("var", name, si["adt"], ())
+                        elif cur[0] == "set":
+                            keep = [m for m in cur[1] if m[0] == "var" and m[1] == name]
+                            if keep:
+                                self._kill(e2, key)
+                                e2[key] = _mkset(keep)
+                    elif si["place"] is not None:
+                        key = _key(si["place"])
+                        cur = self._read(e2, key)
+                        vals = body.edge_value(bb, s_)
+                        if cur is not UNK and cur[0] == "set" and all(m[0] == "var" for m in cur[1]) and "deref" not in key[1]:
+                            def _on_edge(m):
+                                d_ = self._variant_discr(m[2], m[1])
+                                return (d_ in vals) or ("otherwise" in vals and d_ not in listed)
+                            keep = [m for m in cur[1] if _on_edge(m)]
+                            if keep and len(keep) < len(cur[1]):
+                                self._kill(e2, key)
+                                e2[key] = _mkset(keep)
                 out[s_] = e2
             return out
         if k == "call":
@@ -315,7 +373,13 @@ class Spec:
 
     @staticmethod
     def _join(a, b):
-        return {k: v for k, v in a.items() if k in b and b[k] == v}
+        out = {}
+        for k, v in a.items():
+            if k in b:
+                j = v if b[k] == v else _mkset([v, b[k]])
+                if j is not UNK:
+                    out[k] = j
+        return out
 
     def _run(self):
         body = self.body
@@ -338,6 +402,32 @@ class Spec:
                         work.append(s_)
         # the fixpoint's reach: recompute with the final environments (an early visit may have followed an edge that the
         # joined environment no longer singles out -- that only adds blocks, which is the safe direction)
+
+    def reach_from(self, bb, succ):
+        """Blocks that can run after taking the edge bb -> succ, with what is known at bb under this specialisation."""
+        if bb not in self.env_in:
+            return set()
+        outs = self._block(bb, self.env_in[bb])
+        if succ not in outs:
+            return set()
+        env_in = {succ: outs[succ]}
+        work = [succ]
+        seen = set()
+        n = 0
+        while work and n < 100000:
+            n += 1
+            x = work.pop()
+            seen.add(x)
+            for s_, e2 in self._block(x, env_in[x]).items():
+                if s_ not in env_in:
+                    env_in[s_] = e2
+                    work.append(s_)
+                else:
+                    j = self._join(env_in[s_], e2)
+                    if j != env_in[s_]:
+                        env_in[s_] = j
+                        work.append(s_)
+        return seen
 
     def _pins(self):
         pins = {}
